@@ -318,6 +318,8 @@ def analyse(text, limit, full=True):
 
 def ddmin(text, key, limit, max_evals=250):
     evals = [0]
+    if key[0] == "timeout":
+        max_evals = 60          # every reproducing evaluation burns the whole CPU-time limit
 
     import re
     empty_section = re.compile(r"(?m)^=+[^\n]*=+[ \t]*\n(?:[ \t]*\n)*(?==|\Z)")
@@ -361,12 +363,13 @@ def ddmin(text, key, limit, max_evals=250):
     if key[0] == "c07":
         toks = reduce(text.replace("\n", " \n ").split(" "), lambda u: " ".join(u).replace(" \n ", "\n"))
         text = " ".join(toks).replace(" \n ", "\n")
-    elif len(text) <= 400:
+    elif len(text) <= 400 and key[0] != "timeout":
         chars = reduce(list(text), "".join)
         text = "".join(chars)
     else:
         import re
-        toks = reduce([t for t in re.split(r"(<[^<>]*>|\s+)", text) if t], "".join)
+        rx = r"(<[^<>]*>|\[\[[^\[\]]*\]\]|\s+)" if key[0] == "timeout" else r"(<[^<>]*>|\s+)"
+        toks = reduce([t for t in re.split(rx, text) if t], "".join)
         text = "".join(toks)
     return text, evals[0], True
 
